@@ -5,6 +5,7 @@
 #include "common.hpp"
 #include "nmtools/array/view/tril.hpp"
 #include "nmtools/array/view/triu.hpp"
+#include "nmtools/array/view/eye.hpp"
 using namespace ob;
 
 template <class K, size_t R, bool UPPER>
@@ -41,6 +42,26 @@ void ob_c04_tri(const mk_t<K,size_t,R>& shape_, const mk_t<K,size_t,(R==1?2:R)>&
         OBLIGE("C04.tri.index.nothing_on_zeroed_side", !static_cast<bool>(r), kid<K>, R, UPPER);
     }
 }
+// eye(N, M, k): the index function returns Nothing (the view then yields one) exactly on the k-th diagonal, col == row + k,
+// and the unchanged position (into the zeros operand) elsewhere
+template <class K>
+void ob_c04_eye(const mk_t<K,size_t,2>& shape_, const mk_t<K,size_t,2>& idx_, int k)
+{
+    const auto shape = shape_; const auto idx = idx_;
+    for_<2>([&](auto I){ ASSUME((size_t)rd<I.value>(idx) < (1ul<<20)); });
+    ASSUME(k > -(1<<20)); ASSUME(k < (1<<20));
+    const int row = (int)rd<0>(idx), col = (int)rd<1>(idx);
+    if (col == row + k) {
+        auto r = ix::eye(shape, idx, k);
+        OBLIGE("C04.eye.index.nothing_on_the_diagonal", !static_cast<bool>(r), kid<K>);
+    } else {
+        auto r = ix::eye(shape, idx, k);
+        OBLIGE("C04.eye.index.value_off_the_diagonal", static_cast<bool>(r), kid<K>);
+        if (r) for_<2>([&](auto I){ OBLIGE("C04.eye.index.reads_same_position", (size_t)nm::at(*r,I.value) == (size_t)rd<I.value>(idx), kid<K>, I.value); });
+    }
+}
+template void ob_c04_eye<k_std>(const mk_t<k_std,size_t,2>&, const mk_t<k_std,size_t,2>&, int);
+template void ob_c04_eye<k_utl>(const mk_t<k_utl,size_t,2>&, const mk_t<k_utl,size_t,2>&, int);
 void ob_c04_tri_negctl(const std::array<size_t,2>& shape_, const std::array<size_t,2>& idx_, int k)
 {
     const auto shape = shape_; const auto idx = idx_;
